@@ -46,6 +46,10 @@ CONFIGS["many_special"] = {'cps': [{'type': ('bit', 3), 'bins': [['a', 'arr', No
                                     'ignore': [['ig0', [3]], ['ig1', [4]], ['ig2', [5]]],
                                     'illegal': [['il0', [6]], ['il1', [7]], ['il2', [[6, 7]]], ['il3', [3]]]}],
                            'crosses': [], 'values': [(1,), (6,), (4,)]}
+# wildcard bins whose pattern is a constructor parameter: same masked value, different mask
+CONFIGS["wild"] = {'cps': [{'type': ('bit', 3), 'bins': [['w', 'wild', (4, 4)], ['r', 'bin', [0, 3]]]},
+                           {'type': ('bit', 2), 'bins': [['a', 'arr', None, [0, 3]]]}], 'crosses': [],
+                   'small_bins': [['w', 'wild', (4, 6)], ['r', 'bin', [0, 3]]], 'values': [(0, 0), (5, 1), (6, 3)]}
 CONFIGS["x_atleast"] = {'cps': [{'type': ('bit', 2), 'bins': [['lo', 'bin', 0, 1], ['hi', 'bin', 2, 3]], 'at_least': 2},
                                 {'type': ('bit', 2), 'bins': [['a', 'arr', None, [0, 1]], ['r', 'bin', [2, 3]]], 'at_least': 1}],
                         'crosses': [['x', [0, 1], None, {'at_least': 2}], ['y', [1, 0], None, {'at_least': 1}]]}
@@ -63,7 +67,11 @@ MAX_INST = 3
 
 def shape_spec(cfg, shape):
     sp = {'cps': [dict(c) for c in cfg['cps']], 'crosses': cfg['crosses'], 'options': cfg.get('options')}
-    if shape == "small" and sp['cps'][0].get('bins') and len(sp['cps'][0]['bins']) > 1:
+    if shape == "small" and cfg.get('small_bins'):
+        # the constructor parameter replaces the bins of coverpoint 0 (same names, other value sets)
+        sp['cps'][0] = dict(sp['cps'][0])
+        sp['cps'][0]['bins'] = cfg['small_bins']
+    elif shape == "small" and sp['cps'][0].get('bins') and len(sp['cps'][0]['bins']) > 1:
         sp['cps'][0] = dict(sp['cps'][0])
         sp['cps'][0]['bins'] = sp['cps'][0]['bins'][:-1]
     return sp
@@ -95,6 +103,8 @@ class World(object):
     def create(self, shape):
         b0 = self.cfg['cps'][0].get('bins')
         variant = {"drop_bins": [b0[-1][0]]} if (shape == "small" and b0 and len(b0) > 1) else None
+        if shape == "small" and self.cfg.get('small_bins'):
+            variant = {"bins0": self.cfg['small_bins']}
         cg = self.CG(variant) if variant else self.CG()
         self.insts.append((shape, cg))
         rb, sp = self.ref_bins(shape if variant or shape == "full" else "full")
